@@ -3,7 +3,7 @@ import SqlgrepModel.Model.Eval
 C03 (expression level) — the documented meaning of expressions, for ALL operands, environments and
 oracle tables. The model is `Sqlgrep.eval` (Model/Eval.lean), mirroring
 `ExpressionExecutionEngine::evaluate` of /repo HEAD. The SELECT-level theorems (one output row per
-qualifying row, evaluated on that row alone) live in Props/C03Select.lean.
+qualifying row, evaluated on that row alone; `*`, `input`, column names) live in Props/C03Select.lean (audited together with this file by ./check C03).
 -/
 namespace Sqlgrep.Props.C03
 open Sqlgrep
